@@ -49,7 +49,15 @@ def gen_case(r, idx):
         return dict(name=name, body=body, kind=k, bufs=bufs, rec=rec, noise=[], needs_prelude=False)
     bufs = [cond.cond_buffer(r) for _ in range(2)]
     g = cg.Gen(r, len(bufs[0]))
-    ast = g.bool_expr(r.choice([1, 2, 2]))
+    if r.random() < 0.35:      # wildcard rule sets: must see the rules of THIS namespace only
+        w = r.choice(["r_", "r_t", "r_true", "r_f"])
+        ast = {"t": "ofrules", "wild": w, "set": [n for n in ["r_true", "r_false", "r_true2"] if n.startswith(w)], "q": r.choice(["all", "any", "none"])}
+        if r.random() < 0.4:
+            ast["q"] = "n"; ast["qv"] = {"t": "int", "v": r.randint(1, 3)}
+        if r.random() < 0.3:
+            ast = {"t": "not", "x": ast}
+    else:
+        ast = g.bool_expr(r.choice([1, 2, 2]))
     strs = " ".join('%s = "%s"' % (s, cg.STR_TEXT[s].decode()) for s in cg.STRS)
     body = "rule %s { strings: %s condition: %s }" % (name, strs, cg.show(ast)[0])
     has32 = '"n": 4' in json.dumps(ast)
@@ -201,6 +209,8 @@ def c05(res, tier, seed):
         queues["other_ns"] = ["global rule never { condition: false }\nrule x { condition: true }\nrule r_true_x { condition: false }\n"
                               "rule r_false_x { condition: true }\nrule r_tx { condition: false }"]
         ordered = []
+        if r.random() < 0.5:       # the foreign namespace is compiled first
+            ordered.append(("other_ns", queues.pop("other_ns")[0]))
         while queues:
             ns = r.choice(sorted(queues))
             ordered.append((ns, queues[ns].pop(0)))
